@@ -48,7 +48,7 @@ TRUSTED = [
     "Model/Ad.lean: cotangent rules per primitive transcribed from JAX (select sends a zero cotangent to the unselected branch; cotangent x partial uses IEEE multiplication) — a model of JAX autodiff, validated here against jax.grad",
     "EF (Proofs/EF.lean): IEEE special-value rules over exact reals — rounding, overflow (exp of large arguments) and signed zeros are outside the model and covered by this correspondence only",
 ]
-ASSUMPTIONS = ["flows inherit finiteness from their layers by composition of `Safe` expressions (theorem safe_vjp_fin); conditioner MLPs, coupling and masked-autoregressive layers with the default affine transformer are proved (mlp/coupling/maf_grad_finite); spline-transformer couplings, the MAF inverse scan and whole factories are covered by the oracle only",
+ASSUMPTIONS = ["flows inherit finiteness from their layers by composition of `Safe` expressions (theorem safe_vjp_fin); conditioner MLPs, coupling and masked-autoregressive layers with the default affine transformer are proved (mlp/coupling/maf_grad_finite), as are spline-transformer couplings (both directions), the MAF forward pass with splines and MultivariateNormal (coupling_spline/maf_spline/mvn_grad_finite); the MAF inverse scan, BNAF and whole factories are covered by the oracle only",
                "adjoints are compared only where the real value is finite (the property's scope): at non-finite values the per-output model and JAX's shared backward pass may place NaN differently; values are compared everywhere by special-value class",
                "planar leaky-relu theorems need 0 < negative_slope <= 1 (steeper slopes: recorded C02 finding); planar theorems need w != 0 (at w = 0 the real code returns NaN from get_act_scale, public log_prob = -inf)",
                "block_neural_autoregressive_flow / triangular_spline_flow cannot be constructed in this environment"]
